@@ -726,6 +726,10 @@ pub fn gen_thin_bodies(files: &BTreeMap<String, syn::File>, out: &mut String) {
                     None
                 }
             }
+            // a macro call in tail position (`write!(..)`)
+            Stmt::Macro(m) if m.semi_token.is_none() => {
+                Some(m.mac.to_token_stream().to_string().split_whitespace().collect::<Vec<_>>().join(" "))
+            }
             _ => None,
         }
     }
@@ -745,7 +749,7 @@ pub fn gen_thin_bodies(files: &BTreeMap<String, syn::File>, out: &mut String) {
                 Item::Impl(im) => {
                     let st = im.self_ty.to_token_stream().to_string();
                     let names_ga = im.trait_.as_ref().map(|t| t.1.to_token_stream().to_string().contains("GenericArray")).unwrap_or(false);
-                    if !st.contains("GenericArray") && !st.contains("ArrayBuilder") && !st.contains("ArrayConsumer") && !names_ga {
+                    if !st.contains("GenericArray") && !st.contains("ArrayBuilder") && !st.contains("ArrayConsumer") && !st.contains("GAVisitor") && !names_ga {
                         continue;
                     }
                     let header = match &im.trait_ {
